@@ -106,10 +106,17 @@ class Num {
   bool tag_valid() const { return tag == TAG_OK || tag == 0u; }
   uint64_t bits() const {
 #ifdef SIM_EXACT
+    // canonical form (cpp_rational keeps fractions reduced): hash the limbs
     Exempt e;
-    std::string s = v.str();
     uint64_t h = 1469598103934665603ull;
-    for (char c : s) h = (h ^ (unsigned char)c) * 1099511628211ull;
+    auto fold = [&h](const boost::multiprecision::cpp_int &z) {
+      const auto &b = z.backend();
+      h = (h ^ (uint64_t)b.sign()) * 1099511628211ull;
+      for (unsigned i = 0; i < b.size(); i++) h = (h ^ (uint64_t)b.limbs()[i]) * 1099511628211ull;
+      h = (h ^ 0xffu) * 1099511628211ull;
+    };
+    fold(boost::multiprecision::numerator(v));
+    fold(boost::multiprecision::denominator(v));
     return h;
 #else
     uint64_t b;
